@@ -26,30 +26,4 @@ mod verif_kani_zinc_encode {
 
     fn stub_format(_a: std::fmt::Arguments<'_>) -> String { String::new() }
 
-    fn escape_roundtrip(text: &str, letter: u8) {
-        use crate::haystack::encoding::zinc::decode::scanner::Scanner;
-        use crate::haystack::encoding::zinc::decode::scalar::str::parse_str;
-        let mut out: Vec<u8> = Vec::new();
-        let r = write_quoted_str(&mut out, text);
-        assert!(r.is_ok());
-        assert!(out.len() == 4 && out[0] == b'"' && out[1] == b'\\' && out[2] == letter && out[3] == b'"');
-        let mut input: &[u8] = out.as_slice();
-        let mut scanner = Scanner::make(&mut input).unwrap();
-        let back = parse_str(&mut scanner);
-        kani::cover!(back.is_ok());
-        match &back {
-            Ok(s) => assert!(s.value.as_bytes() == text.as_bytes()),
-            Err(_) => assert!(false),
-        }
-        std::mem::forget(back);
-    }
-    // C01: for each of the six characters the writer escapes with a letter (" TAB CR LF \ $): the real quoted-string writer
-    // emits `"` `\` letter `"`, and the real string parser decodes exactly that text back to the character.
-    // One harness per character (concrete input: complete for that character).
-    #[kani::proof] #[kani::unwind(8)] #[kani::stub(alloc::fmt::format, stub_format)] fn k_zinc_escape_quote() { escape_roundtrip("\"", b'"') }
-    #[kani::proof] #[kani::unwind(8)] #[kani::stub(alloc::fmt::format, stub_format)] fn k_zinc_escape_tab() { escape_roundtrip("\t", b't') }
-    #[kani::proof] #[kani::unwind(8)] #[kani::stub(alloc::fmt::format, stub_format)] fn k_zinc_escape_cr() { escape_roundtrip("\r", b'r') }
-    #[kani::proof] #[kani::unwind(8)] #[kani::stub(alloc::fmt::format, stub_format)] fn k_zinc_escape_lf() { escape_roundtrip("\n", b'n') }
-    #[kani::proof] #[kani::unwind(8)] #[kani::stub(alloc::fmt::format, stub_format)] fn k_zinc_escape_backslash() { escape_roundtrip("\\", b'\\') }
-    #[kani::proof] #[kani::unwind(8)] #[kani::stub(alloc::fmt::format, stub_format)] fn k_zinc_escape_dollar() { escape_roundtrip("$", b'$') }
 }
